@@ -24,7 +24,8 @@ type Ctx struct {
 	guard    *Term            // extra guard for obligations (short-circuit)
 	info     *types.Info
 	pkg      *PkgInfo
-	assuming bool // the clause being evaluated is assumed (callee contract at a call site), not proved
+	loopSpec *LoopSpec // the loop whose invariant is being evaluated (before(e))
+	assuming bool      // the clause being evaluated is assumed (callee contract at a call site), not proved
 }
 
 func (c *Ctx) withState(st *State) *Ctx { n := *c; n.st = st; return &n }
@@ -560,6 +561,10 @@ func (c *Ctx) evalIndex(e *ast.IndexExpr) Value {
 	switch base.Kind {
 	case KSlice:
 		c.oblige("bounds", exprText(e), And(Le(IntLit(0), idx.S), Lt(idx.S, base.Len)), e.Pos())
+		if et := elemTypeOrNil(base.T); et != nil && x.kindOf(et) == KSlice {
+			// a slice of slices: the elements are references to boxed slice values
+			return c.loadPointee(Select(base.Arr, idx.S), et)
+		}
 		v := Scalar(Select(base.Arr, idx.S), elemTypeOrNil(base.T))
 		x.valueFacts(v)
 		return v
@@ -672,6 +677,9 @@ func liftLike(h, v Value) Value { v.T = h.T; return v }
 func (c *Ctx) boxElem(v Value, et types.Type) Value {
 	if v.Kind == KStruct && et != nil {
 		return c.alloc(v, et)
+	}
+	if v.Kind == KSlice && et != nil && c.x.kindOf(et) == KSlice {
+		return c.allocBox(et, v, et)
 	}
 	return v
 }
